@@ -69,4 +69,8 @@ theorem not_tooFar_iff (atol d : Rat) : tooFar atol d = false ↔ 0 ≤ atol ∧
     · exact absurd h (Rat.not_lt.mpr h1)
     · exact absurd h (Rat.not_lt.mpr h2)
 
+theorem getD_of_lt {α : Type} (l : List α) (i : Nat) (dflt : α) (h : i < l.length) :
+    l.getD i dflt = l[i] := by
+  simp [List.getD, List.getElem?_eq_getElem h]
+
 end VOPy.Locate
